@@ -772,7 +772,7 @@ func profiles(r *ev.Run, rng *rand.Rand) []profile {
 		}
 	}
 	if r.Thorough() {
-		add(20, small(20000, 100, 2000))
+		add(16, small(20000, 100, 2000))
 		add(4, medium(20000, 200, 4000))
 		add(2, large(20000, 400, 5000))
 	} else {
